@@ -1,16 +1,59 @@
-import CalicoVerif.Proofs.C15b
+import CalicoVerif.Proofs.C15m
 /-!
 C15 — iptables sync converges and leaves other software's rules alone (legacy iptables backend).
 Property theorems over the model `CalicoVerif.Model.C15` of felix/iptables/table.go and of
 iptables-save and iptables-restore (atomic transactions).  Rule hashes are uninterpreted (supplied by the real
 renderer on every correspondence run).
 
-NOT proved in Lean (evaluated as an oracle on the real code on every generated history, and backed by
-the state-level correspondence): the convergence clause itself (`apply_converges`: owned chains equal
-the desired rules in order, hook rules at the configured position, stale Felix chains/rules gone) and
-the nftables backend.
+The convergence clause is proved for one `Apply` iteration that re-reads the table and whose transaction
+succeeds (which is how every `Apply` ends: it retries, re-reading after each failure, until a transaction
+succeeds): `apply_converges_owned` (owned chains = desired exactly and in order, stale Felix chains gone) and
+`apply_converges_hooks` (hook rules at the configured position and order, stale Felix rules gone, other
+software's rules unchanged).  Hypotheses, all explicit: hash soundness (a kernel rule carrying the hash of the
+desired rule at its position IS that rule: hashes are collision-free, chained tags), `CacheOK` (for clean owned
+chains the cache of programmed hashes equals the desired hashes; the harness checks it on the real code after
+every operation) and the name-space conventions of the callers.
+NOT proved in Lean: `CacheOK` as an inductive invariant of the refcounting API, the case of a shared chain whose
+hooks are already in sync, and the nftables backend.
 -/
 namespace CalicoVerif.C15
+
+/-- **apply_converges, owned chains**: from ANY kernel table, one `Apply` iteration that re-reads the table and
+whose transaction succeeds leaves every Felix-owned chain name holding exactly the desired rules in the desired
+order if the chain is desired (present in Felix's state and referenced), and not existing otherwise: stale
+Felix chains, including ones with historic prefixes, are gone. -/
+theorem apply_converges_owned_chains (t : T) (K K' : Kernel) {lines newH newFull}
+    (hcache : CacheOK t) (hnodup : t.dirty.Nodup) (hIA : ∀ c, t.ours c = true → c ∉ t.dirtyIA)
+    (hsound : ∀ c ch rs, t.ours c = true → t.desiredChain c = some ch → K.get c = some rs → Sound rs ch.rules)
+    (hplan : (t.load K).plan = some (lines, newH, newFull)) (hres : krestore K lines = some K')
+    (c : String) (hours : t.ours c = true) (hne : c ≠ "") :
+    K'.get c = (t.desiredChain c).map (fun ch => ch.rules.map DRule.k) :=
+  apply_converges_owned t K K' hcache hnodup hIA hsound hplan hres c hours hne
+
+/-- **apply_converges, hook rules**: the same iteration, for a shared (kernel) chain `c` whose hooks are out of
+sync: afterwards it holds Felix's insert rules at the configured end (top in insert mode, after the other
+software's rules in append mode) in the configured order, then the append rules last, and the other software's
+rules exactly as they were and in the same order; every stale Felix rule (unknown hash, old-style insert) is gone. -/
+theorem apply_converges_hooks (t : T) (K K' : Kernel) {lines newH newFull} (c : String) (rs : List KRule)
+    (hkeys : K.keys.Nodup) (hno : t.ours c = false) (hne : c ≠ "")
+    (hdirtyOurs : ∀ x ∈ t.dirty, t.ours x = true) (hnodupIA : t.dirtyIA.Nodup)
+    (hK : K.get c = some rs) (hhash : HashNonEmpty rs)
+    (hplan : (t.load K).plan = some (lines, newH, newFull)) (hres : krestore K lines = some K')
+    (hcIA : c ∈ (t.load K).dirtyIA)
+    (hnot : (some (rs.map KRule.hash) == some (t.expectedIA c (numEmpty (rs.map KRule.hash)))) = false) :
+    K'.get c = some
+      (if t.insertMode then ((t.ins.get c).getD []).map DRule.k ++ foreignSub rs ++ ((t.app.get c).getD []).map DRule.k
+       else foreignSub rs ++ ((t.ins.get c).getD []).map DRule.k ++ ((t.app.get c).getD []).map DRule.k) :=
+  hooks_rewritten t K K' c rs hkeys hno hne hdirtyOurs hnodupIA hK hhash hplan hres hcIA hnot
+
+/-- **The diff lemma**: the per-position replace / delete-from-the-end / append lines turn a chain whose hashes
+are `ps` into exactly the desired rules, in order, always succeed, and touch no other chain. -/
+theorem diff_lemma (c : String) (ps : List String) (rs : List DRule) (L : List KRule) (K : Kernel)
+    (hm : L.map KRule.hash = ps) (hs : Sound L rs) (hk : K.get c = some L) :
+    ∃ K', krestore K (diffLines c rs.length 0 ps rs) = some K' ∧
+      K'.get c = some (rs.map DRule.k) ∧ ∀ x, x ≠ c → K'.get x = K.get x := by
+  have := diff_converges c ps rs L [] K hm hs (by simpa using hk)
+  simpa using this
 
 /-- **unowned_unchanged** (one successful `applyUpdates` transaction, from ANY kernel table, for any
 desired state and any cached state read by `loadDataplaneState`): for every chain `x` that is not in
@@ -65,5 +108,24 @@ example :
 
 example : diffLines "cali-a" 1 0 ["h1", "h2"] [⟨"h1", "--jump DROP", none⟩]
     = [RLine.delIdx "cali-a" 2] := by simp [diffLines]
+
+/-- `CacheOK`, `Sound` and the other hypotheses of the convergence theorems hold for a fresh table with one
+force-programmed chain and an out-of-date copy of it in the kernel. -/
+def exT : T := (T.new ["cali-"] true).updateChain "cali-a" ⟨[⟨"h1", "--jump DROP", none⟩, ⟨"h2", "--jump ACCEPT", none⟩], true⟩
+def exK : Kernel := [("cali-a", [KRule.felix "h1" "--jump DROP", KRule.felix "old" "--jump RETURN", KRule.felix "x" "--jump RETURN"]),
+  ("FORWARD", [KRule.foreign "-j DOCKER"]), ("INPUT", []), ("OUTPUT", [])]
+
+example : exT.ours "cali-a" = true ∧ exT.dirty.Nodup ∧ "cali-a" ∈ exT.dirty := by decide
+example : Sound [KRule.felix "h1" "--jump DROP", KRule.felix "old" "--jump RETURN", KRule.felix "x" "--jump RETURN"]
+    [⟨"h1", "--jump DROP", none⟩, ⟨"h2", "--jump ACCEPT", none⟩] := by
+  simp [Sound, KRule.hash, DRule.k]
+example : (krestore exK (diffLines "cali-a" 2 0 ["h1", "old", "x"]
+    [⟨"h1", "--jump DROP", none⟩, ⟨"h2", "--jump ACCEPT", none⟩])).map (fun K => K.get "cali-a") =
+    some (some [KRule.felix "h1" "--jump DROP", KRule.felix "h2" "--jump ACCEPT"]) := by
+  simp [diffLines, krestore, kline, exK, Map.get, Map.set, Map.erase, List.lookup, DRule.k]
+example : HashNonEmpty [KRule.old "-j felix-FORWARD", KRule.foreign "-j DOCKER", KRule.felix "OLDHASH" "--jump DROP"] := by
+  intro r hr
+  simp only [List.mem_cons, List.not_mem_nil, or_false] at hr
+  rcases hr with rfl | rfl | rfl <;> simp [KRule.hash, KRule.isForeign]
 
 end CalicoVerif.C15
